@@ -17,12 +17,16 @@ def gen_case(rng, k, tier):
     bs1 = rng.choice([b for b in (256, 512, 1024, 2048) if b >= bs0])
     nlinks = 1 if rng.chance(3, 4) else 2
     data = b""
+    lens = []
     for li in range(nlinks):
         nw = rng.range(3, 9)
         wseq = tuple([0] + [rng.below(2) for _ in range(nw)])
-        d, meta = streams.build_link(100 + li, channels=ch if li == 0 else rng.choice([1, 2, ch]), bs0=bs0, bs1=bs1, wseq=wseq,
+        # a second link mostly has ANOTHER channel count: ov_read must pack with the current link's
+        ch2 = ch if li == 0 else rng.choice([c for c in (1, 2, 3, ch) if c != ch] + [ch])
+        d, meta = streams.build_link(100 + li, channels=ch2, bs0=bs0, bs1=bs1, wseq=wseq,
                                      layout=(rng.range(1, 4),))
         data += d
+        lens.append(meta.get("N", 0))
     hs = 1 if (bs0 >= 128 and rng.chance(1, 4)) else 0
     ops = []
     for _ in range(rng.range(4, 14)):
@@ -42,6 +46,9 @@ def gen_case(rng, k, tier):
         if word == 1 and pat == 3:
             pat = 4
         ops.append("r:%d:%d:%d:%d:%d" % (word, sg, be, ln, pat))
+    if nlinks == 2 and lens[1] > 0 and rng.chance(2, 3):
+        # start inside the second link, so that the reads below are packed there
+        ops.insert(0, "s:%d" % (lens[0] + rng.below(max(1, lens[1] // 2))))
     text = "case %d %d %d %s\nops %s\n" % (k, hs, rng.below(1 << 30), data.hex(), " ".join(ops))
     return text, {"case": k, "channels": ch, "bs": [bs0, bs1], "links": nlinks, "halfrate": hs, "ops": " ".join(ops)}
 
